@@ -54,7 +54,7 @@ theorem resetTo_form {g g' : GState} {out : Out} {k : Nat} (hs : stepCore cfg g 
   exact ⟨x, cp, mark, v, hfind, hv, rfl⟩
 
 theorem alignedEnter_form {g g' : GState} {out : Out} {n : Nat} (hs : stepCore cfg g (.alignedEnter n) = .ok (g', out)) :
-    MinAlignOK n ∧ ∃ f, (f = Frame.alignedLower g.s.minAlign ∨ f = Frame.alignedRaise g.s.minAlign) ∧
+    MinAlignOK n ∧ ∃ f, (f = Frame.alignedLower g.s.minAlign g.s.cur ∨ f = Frame.alignedRaise g.s.minAlign) ∧
       g'.s.frames = f :: g.s.frames ∧ g'.s.minAlign = n ∧ g'.marks = g.marks := by
   fs_op hs
   · rename_i hn _
@@ -63,13 +63,34 @@ theorem alignedEnter_form {g g' : GState} {out : Out} {n : Nat} (hs : stepCore c
     exact ⟨minAlignOK_of_not_check hn, _, Or.inr rfl, rfl, rfl, rfl⟩
 
 theorem alignedExit_form {g g' : GState} {out : Out} (hs : stepCore cfg g .alignedExit = .ok (g', out)) :
-    ∃ outer f, (f = Frame.alignedLower outer ∨ f = Frame.alignedRaise outer) ∧
+    ∃ outer f, ((∃ start, f = Frame.alignedLower outer start) ∨ f = Frame.alignedRaise outer) ∧
       g.s.frames = f :: g'.s.frames ∧ g'.s.minAlign = outer ∧ g'.marks = g.marks := by
   fs_op hs
-  · rename_i outer rest hf _ _ _
-    exact ⟨outer, _, Or.inl rfl, hf, rfl, rfl⟩
+  · rename_i outer start rest hf _ _ _ _ _ _
+    exact ⟨outer, _, Or.inl ⟨start, rfl⟩, hf, rfl, rfl⟩
   · rename_i outer rest hf
     exact ⟨outer, _, Or.inr rfl, hf, rfl, rfl⟩
+
+/-- entering a LOWERING `aligned::<n>`: the guard records the outer minimum alignment and the current chunk -/
+theorem alignedEnter_lower_form {g g' : GState} {out : Out} {n : Nat} (hlt : n < g.s.minAlign)
+    (hs : stepCore cfg g (.alignedEnter n) = .ok (g', out)) :
+    g' = { g with s := { g.s with frames := .alignedLower g.s.minAlign g.s.cur :: g.s.frames, minAlign := n } } := by
+  fs_op hs
+  rfl
+
+/-- leaving a lowering `aligned` region: both halves of `BumpAlignGuard::drop` run -/
+theorem alignedExit_lower_form {g g' : GState} {out : Out} {outer : Nat} {start : Cur} {rest : List Frame}
+    (hf : g.s.frames = .alignedLower outer start :: rest) (hs : stepCore cfg g .alignedExit = .ok (g', out)) :
+    ∃ s1 s', alignGuardDrop cfg g.s outer = .ok s1 ∧ alignChunkAt cfg s1 outer start = .ok s' ∧
+      g' = { g with s := { s' with frames := rest, minAlign := outer } } := by
+  fs_op hs
+  · rename_i outer' start' rest' hf' _ v1 hv1 _ v hv
+    rw [hf] at hf'
+    cases hf'
+    exact ⟨v1, v, hv1, hv, rfl⟩
+  · rename_i outer' rest' hf'
+    rw [hf] at hf'
+    cases hf'
 
 theorem claim_form {g g' : GState} {out : Out} (hs : stepCore cfg g .claim = .ok (g', out)) :
     g' = { g with s := { g.s with frames := .claim :: g.s.frames } } ∧ cfg.claimable = true := by
